@@ -24,8 +24,9 @@ Driver for C08.  `T` is `u` (std::size_t instantiation, components ≥ 0) or `s`
                               `ip f a b = (4f+1)*1000003 + 7a + 13b`; `interps d k`: digest over all such fl, q
 * `rows w h k`                static_row constructor (N = 2), 1 ≤ w, h ≤ 4
 * `regs d0 k0 d1 k1 d2 k2 P`  three objects, `P` = special-member calls `xxDS` joined by `.` (`-` = none): `cc` copy ctor,
-                              `mc` move ctor, `ca` copy assign, `ma` move assign, `sm` member swap, `sf` free swap; D, S slot digits
+                              `mc` move ctor, `dcD` default ctor, `ca` copy assign, `ma` move assign, `sm` member swap, `sf` free swap; D, S slot digits
 * `cmp d1 c1 d2 c2`           `== != < > <= >=` of the grids with sizes d1, d2 and cell lists c1, c2 (`-` = no cell)
+* `fillself d k mode`         fill whose function reads the grid itself: first / last / previous / next / current cell, + 7
 * `clamp d p`                 clamped_min p, clamped_sup_signed p d, clamped_sup (clamped_min p) d
 * `clamps d m`                digest of `clamp` over all p with -m ≤ p_i ≤ d_i + m
 * `refsub d k smin ssup`      pos_ref_range(grid, clamped_min smin, clamped_sup_signed ssup d)
@@ -102,6 +103,7 @@ def rowsLine (w h : Nat) (k : Int) : String :=
 def parseRegOp (s : String) : Option RegOp :=
   let dig (ch : Char) : Option Nat := if '0' ≤ ch ∧ ch ≤ '9' then some (ch.toNat - 48) else none
   match s.toList with
+  | ['d', 'c', c] => (dig c).map RegOp.defaultCtor
   | [a, b, c, d] =>
     match dig c, dig d with
     | some i, some j =>
@@ -122,9 +124,9 @@ def slotStr (x : Slot Int) : String :=
   if x.moved then s!"moved size={il x.g.size}" else gridStr x.g
 
 /-- `regs d0 k0 d1 k1 d2 k2 prog`: three objects, a history of special-member calls, then all three printed -/
-def regsLine (dks : List (List Int × Int)) (prog : List RegOp) : String :=
+def regsLine (n : Nat) (dks : List (List Int × Int)) (prog : List RegOp) : String :=
   exc (dks.mapM fun dk => mkGrid dk.1 dk.2) fun gs =>
-    match regRun (gs.map fun g => ⟨g, false⟩) prog with
+    match regRun n (gs.map fun g => ⟨g, false⟩) prog with
     | none => "bad-op"
     | some st => " ; ".intercalate (st.map slotStr)
 
@@ -140,6 +142,22 @@ def interpLine (g : Grid Int) (fl q : List Int) : String :=
 
 def interpOk (d fl q : List Int) : Bool :=
   (List.zip d (List.zip fl q)).all fun x => 0 ≤ x.2.1 && x.2.1 + 1 < x.1 && 0 ≤ x.2.2 && x.2.2 ≤ 3
+
+/-- `fillself d k mode`: fill with a function that returns one of the grid's own cells + 7, read at call time:
+    mode 0 the first cell, 1 the last cell, 2 the cell before the current one in storage order (the first: itself),
+    3 the cell after it (the last: itself), 4 the current cell -/
+def fillSelfLine (d : List Int) (k : Int) (mode : Nat) : String :=
+  exc (mkGrid d k) fun g =>
+    let b := box (zeros d) d
+    let src (p : Pos) : Pos :=
+      let i := b.idxOf p
+      match mode with
+      | 0 => zeros d
+      | 1 => d.map (· - 1)
+      | 2 => (b[i - 1]?).getD p
+      | 3 => (b[i + 1]?).getD p
+      | _ => p
+    exc (g.fillDep fun g' p => (· + 7) <$> g'.getUnsafe (src p)) gridStr
 
 def applyF (a : Int) (bs : List Int) : Int := bs.foldl (fun acc b => acc * 1009 + b) a
 
@@ -285,7 +303,7 @@ def handle (toks : List String) : String :=
   | ["regs", d0, k0, d1, k1, d2, k2, prog] =>
     match L d0, I k0, L d1, I k1, L d2, I k2, parseProg prog with
     | some d0, some k0, some d1, some k1, some d2, some k2, some prog =>
-      if okDims [d0, d1, d2] && nonneg d0 && nonneg d1 && nonneg d2 then regsLine [(d0, k0), (d1, k1), (d2, k2)] prog
+      if okDims [d0, d1, d2] && nonneg d0 && nonneg d1 && nonneg d2 then regsLine d0.length [(d0, k0), (d1, k1), (d2, k2)] prog
       else "bad-op"
     | _, _, _, _, _, _, _ => "bad-op"
   | ["cmp", d1, c1, d2, c2] =>
@@ -295,6 +313,10 @@ def handle (toks : List String) : String :=
         cmpLine ⟨d1, c1⟩ ⟨d2, c2⟩
       else "bad-op"
     | _, _, _, _ => "bad-op"
+  | ["fillself", d, k, mode] =>
+    match L d, I k, String.toNat? mode with
+    | some d, some k, some mode => if okDims [d] && nonneg d && mode ≤ 4 then fillSelfLine d k mode else "bad-op"
+    | _, _, _ => "bad-op"
   | ["clamp", d, p] =>
     match L d, L p with
     | some d, some p =>
